@@ -170,3 +170,29 @@ Proof.
   intros H1 H2. apply token_print_parse in H1, H2.
   destruct H1 as [<-|[_ <-]], H2 as [<-|[_ <-]]; auto.
 Qed.
+
+(* text-level tampering: a token text that is extended, truncated or changed in place and still parses carries other
+   bytes — except for the one alias, a dot after a footer-less token.  (The byte-level theorems then apply.) *)
+Corollary token_text_extension_changes_token {F} (fdec : bytes -> option F) hdr sfx pur s x t v t' v' :
+  parse_token fdec hdr sfx pur s = Ok (t, v) ->
+  parse_token fdec hdr sfx pur (s ++ x) = Ok (t', v') ->
+  x <> [] -> x <> [dot] -> t' <> t.
+Proof.
+  intros H1 H2 Hx Hd ->.
+  destruct (token_aliases_only_trailing_dot fdec hdr sfx pur _ _ _ _ _ H1 H2) as [E|[E|E]].
+  - apply Hx. rewrite <- (app_nil_r s) in E at 1. apply app_inv_head in E. now symmetry.
+  - apply (f_equal (@length _)) in E. rewrite !app_length in E. simpl in E. lia.
+  - apply app_inv_head in E. now apply Hd.
+Qed.
+
+Corollary token_text_same_length_changes_token {F} (fdec : bytes -> option F) hdr sfx pur s1 s2 t v t' v' :
+  parse_token fdec hdr sfx pur s1 = Ok (t, v) ->
+  parse_token fdec hdr sfx pur s2 = Ok (t', v') ->
+  length s1 = length s2 -> s1 <> s2 -> t' <> t.
+Proof.
+  intros H1 H2 L N ->.
+  destruct (token_aliases_only_trailing_dot fdec hdr sfx pur _ _ _ _ _ H1 H2) as [E|[E|E]].
+  - now apply N.
+  - rewrite E, app_length in L. simpl in L. lia.
+  - rewrite E, app_length in L. simpl in L. lia.
+Qed.
